@@ -562,3 +562,24 @@ Qed.
 (* the new parameter of the API meets the side conditions on the stale vectors *)
 Lemma new_param_clean : forall n d, p_ints (new_param n d) = [] /\ p_floats (new_param n d) = [] /\ p_strs (new_param n d) = [].
 Proof. intros n d. repeat split. Qed.
+
+Theorem set_strs_wf : forall p data dims q,
+  set_strs p data dims = Ok q -> p_ints p = [] -> p_floats p = [] ->
+  name_ok (p_name p) -> desc_ok (p_desc p) ->
+  Forall (fun s => no_nul s /\ rtrim s = s) data ->
+  (let d := maxlen data :: dims_or_len dims (nlen data) in
+   (length d <= 255)%nat /\ Forall byte_ok d /\ prodN d < 2147483648 /\ loop_cost d 1 <= LIMC /\ prodN (dims_or_len dims (nlen data)) < 2147483648) ->
+  wf_param q.
+Proof.
+  intros p data dims q H Ei Ef Hn Hd Hs Hdims. cbv zeta in Hdims. destruct Hdims as (L & Hb & Hp & Hc & Hp2).
+  unfold set_strs in H. destruct (dim_consistent (nlen data) (dims_or_len dims (nlen data))) eqn:C; [|discriminate].
+  injection H as <-. unfold wf_param. cbn [p_name p_desc p_dims p_type p_ints p_floats p_strs].
+  split; [exact Hn|]. split; [exact Hd|]. split.
+  - unfold dims_ok. split; [discriminate|]. auto.
+  - unfold typed_ok. cbn [p_type p_ints p_dims p_floats p_strs]. split; [exact Ei|]. split; [exact Ef|].
+    destruct (dims_or_len dims (nlen data)) as [|d0 dt] eqn:D; [exfalso; eapply dims_or_len_ne; exact D|].
+    split.
+    + apply shape_covers; [discriminate|exact C|exact Hp2].
+    + apply Forall_forall. intros s Hin. rewrite Forall_forall in Hs. destruct (Hs s Hin) as [A B].
+      unfold str_ok. split; [|split; assumption]. apply (proj1 (maxlen_spec data)). exact Hin.
+Qed.
